@@ -263,7 +263,10 @@ func (l *lexer) skipComment() bool {
 	for {
 		switch l.peek() {
 		case 0:
-			return true
+			if len(l.source) == l.offset {
+				return true
+			}
+			l.offset++
 		case '\\':
 			switch l.offset++; l.peek() {
 			case '\\', '\n':
